@@ -335,6 +335,21 @@ fn render(src: &str, d: &Delims) -> R {
         let one_off = t.render_str(src, &c, false);
         // the same source registered under a non-escaping name must render to the same text
         let registered = t.add_raw_template("t.txt", src).and_then(|_| t.render("t.txt", &c));
+        // a sample of the sources also goes through a file (add_template_file): what is on disk is what is rendered
+        if hash_str(src) % 16 == 0 {
+            let dir = std::path::Path::new(VERIF_DIR).join("work").join("c08files");
+            let _ = std::fs::create_dir_all(&dir);
+            let path = dir.join(format!("{:?}.tpl", std::thread::current().id()).replace(|c: char| !c.is_ascii_alphanumeric() && c != '.', "_"));
+            if std::fs::write(&path, src).is_ok() {
+                let from_file = t.add_template_file(&path, Some("f.txt")).and_then(|_| t.render("f.txt", &c));
+                match (&registered, &from_file) {
+                    (Ok(a), Ok(b)) if a != b => return R::Err(format!("registered from a string the source renders {a:?}, loaded from a file with the same bytes {b:?}")),
+                    (Ok(a), Err(e)) => return R::Err(format!("registered from a string the source renders {a:?}, loaded from a file it fails: {e}")),
+                    (Err(e), Ok(b)) => return R::Err(format!("registered from a string the source fails ({e}), loaded from a file it renders {b:?}")),
+                    _ => {}
+                }
+            }
+        }
         match (&one_off, &registered) {
             (Ok(a), Ok(b)) if a != b => return R::Err(format!("render_str gives {a:?} but add_raw_template + render gives {b:?}")),
             (Ok(a), Err(e)) => return R::Err(format!("render_str gives {a:?} but add_raw_template + render fails: {e}")),
